@@ -79,6 +79,22 @@ def Op.guarded {α : Type} : Op α → Bool
   | .chown _ => true
   | _ => false
 
+/-- `o` is skipped when an error of `op` has been swallowed: an error of `stat` (or, in the tree
+as found, of `chmod`) abandons the rest of the copy of mode and group; an error of `chown` is
+ignored on its own (in the program as found nothing guarded follows `chown`, so this is the
+same as "abandon the rest of the block" there; in the repaired order `chmod` still runs). -/
+def Op.skips {α : Type} (op o : Op α) : Bool :=
+  match op with
+  | .chown _ => false
+  | _ => o.guarded
+
+/-- Linux `chown(2)` on a regular file clears S_ISUID (04000) always and S_ISGID (02000) when the
+file is group-executable (0010), also for root; the sticky bit and S_ISGID without group-execute
+(mandatory-locking marker) stay.  Observed on the sandbox kernel for all 30 probed modes. -/
+def killSugid (m : Nat) : Nat :=
+  let m1 := if m / 2048 % 2 = 1 then m - 2048 else m
+  if m1 / 1024 % 2 = 1 ∧ m1 / 8 % 2 = 1 then m1 - 1024 else m1
+
 /-- creation attributes: `0666 & ~umask`, effective gid; `nameMax` = the directory's
 `pathconf(PC_NAME_MAX)` (paths of the model are names inside one directory) -/
 structure Env where
@@ -112,7 +128,7 @@ def sys {α : Type} (env : Env) (fs : FS α) (st : StatRes) : Op α → Except E
     | _, none => .error ENOENT
   | .chown p =>
     match st, fs p with
-    | some (_, g), some f => .ok (fs.set p (some { f with gid := g }), st)
+    | some (_, g), some f => .ok (fs.set p (some { f with gid := g, mode := killSugid f.mode }), st)
     | none, _ => .error EINTERNAL
     | _, none => .error ENOENT
   | .rename s d =>
@@ -156,7 +172,7 @@ def Proc.step {α : Type} (env : Env) (strict : Bool) (fault : Faults) (fs : FS 
       (fs', { todo := rest, st := st', idx := p.idx + 1, err := none, log := p.log ++ [(op, none)] })
     | .error e =>
       if swallows strict op e then
-        (fs, { todo := rest.dropWhile Op.guarded, st := p.st, idx := p.idx + 1, err := none,
+        (fs, { todo := rest.dropWhile (Op.skips op), st := p.st, idx := p.idx + 1, err := none,
                log := p.log ++ [(op, some e)] })
       else
         (fs, { todo := [], st := p.st, idx := p.idx + 1, err := some e, log := p.log ++ [(op, some e)] })
@@ -205,6 +221,22 @@ def tmpName (target : Path) (pid : Nat) : Path :=
 chmod tmp, chown tmp, rename tmp → target.  (The data is `chunks.flatten`.) -/
 def atomicWriteOps {α : Type} (pid : Nat) (target : Path) (chunks : List (List α)) : List (Op α) :=
   opsAt (tmpName target pid) target chunks
+
+/-! ### the repaired order (fixes/C08-H1.diff): `chown` first, `chmod` last
+
+      st = os.stat(target)                 -- FileNotFoundError: nothing to carry over
+      try: os.chown(temp, -1, st.st_gid)   -- errors ignored
+      except OSError: pass
+      os.chmod(temp, st.st_mode)           -- errors propagate
+-/
+
+def tail4CF {α : Type} (t g : Path) : List (Op α) := [.stat g, .chown t, .chmod t, .rename t g]
+
+def opsAtCF {α : Type} (t g : Path) (cs : List (List α)) : List (Op α) :=
+  Op.openTrunc t :: (cs.map (Op.write t) ++ Op.close t :: tail4CF t g)
+
+def atomicWriteOpsCF {α : Type} (pid : Nat) (target : Path) (chunks : List (List α)) : List (Op α) :=
+  opsAtCF (tmpName target pid) target chunks
 
 def Proc.init {α : Type} (ops : List (Op α)) : Proc α := { todo := ops }
 
